@@ -49,6 +49,7 @@ pub fn configs(tier: Tier) -> Vec<Box<dyn Config>> {
         v.push(pairs(Plan::Seq, if q { 4 } else { 5 }, Plan::Max, if q { 4 } else { 5 }, true, tier));
     }
     v.push(Box::new(NonReflexiveEq));
+    v.push(Box::new(StatelessHasherAndAllocIdentity));
     // clones of tables of zero-sized elements create exactly one new element per stored element
     v.push(Box::new(super::c02::ZstTables { tier }));
     // HashSet::clone / clone_from / == over all ordered pairs of set states, equal and different hasher states
@@ -127,6 +128,238 @@ impl Config for NonReflexiveEq {
     fn replay(&self, _rp: &Value) -> Result<(), String> {
         env::reset();
         match env::catch(nonreflexive_all) {
+            Ok(r) => r.map(|_| ()),
+            Err(m) => Err(m),
+        }
+    }
+}
+
+// ---------------------------------------------------------------------------
+// Equality and cloning with a zero-sized (stateless) hasher and with allocators that have an identity:
+//  - equal sets / maps built in different insertion orders and with different removal histories are equal
+//    even when their tables have the same size (the slot an element lands in depends on the history);
+//  - clone_from keeps the target's storage in the target's own allocator.
+// ---------------------------------------------------------------------------
+
+pub struct StatelessHasherAndAllocIdentity;
+
+#[derive(Default, Clone, Copy)]
+struct Low2;
+impl std::hash::Hasher for Low2H {
+    fn finish(&self) -> u64 {
+        // four home positions, two tags: plenty of collisions
+        mk_hash(self.0 % 4, (self.0 % 2) as u8)
+    }
+    fn write(&mut self, b: &[u8]) {
+        for &x in b {
+            self.0 = self.0.wrapping_mul(31).wrapping_add(x as u64);
+        }
+    }
+    fn write_u8(&mut self, v: u8) {
+        self.0 = v as u64;
+    }
+}
+struct Low2H(u64);
+impl std::hash::BuildHasher for Low2 {
+    type Hasher = Low2H;
+    fn build_hasher(&self) -> Low2H {
+        Low2H(0)
+    }
+}
+
+thread_local! {
+    static OWNERS: std::cell::RefCell<Vec<(usize, u8)>> = const { std::cell::RefCell::new(Vec::new()) };
+    static OWNER_ERRS: std::cell::RefCell<Vec<String>> = const { std::cell::RefCell::new(Vec::new()) };
+}
+/// allocator with an identity: every block must be returned to the instance (id) it came from
+#[derive(Clone, Copy)]
+struct IdAlloc(u8);
+unsafe impl allocator_api2::alloc::Allocator for IdAlloc {
+    fn allocate(&self, layout: std::alloc::Layout) -> Result<std::ptr::NonNull<[u8]>, allocator_api2::alloc::AllocError> {
+        let p = CheckAlloc.allocate(layout)?;
+        OWNERS.with(|o| o.borrow_mut().push((p.as_ptr() as *mut u8 as usize, self.0)));
+        Ok(p)
+    }
+    unsafe fn deallocate(&self, ptr: std::ptr::NonNull<u8>, layout: std::alloc::Layout) {
+        let addr = ptr.as_ptr() as usize;
+        OWNERS.with(|o| {
+            let mut o = o.borrow_mut();
+            match o.iter().position(|e| e.0 == addr) {
+                Some(i) => {
+                    let (_, id) = o.swap_remove(i);
+                    if id != self.0 {
+                        OWNER_ERRS.with(|e| e.borrow_mut().push(format!("a block obtained from allocator #{id} was returned to allocator #{}", self.0)));
+                    }
+                }
+                None => OWNER_ERRS.with(|e| e.borrow_mut().push("a block was returned that no allocator instance handed out".into())),
+            }
+        });
+        CheckAlloc.deallocate(ptr, layout)
+    }
+}
+
+fn stateless_and_identity() -> Result<u64, String> {
+    type S = hashbrown::HashSet<u8, Low2, CheckAlloc>;
+    type M = hashbrown::HashMap<u8, u8, Low2, CheckAlloc>;
+    let mut count = 0u64;
+    // 1. equality under a zero-sized hasher
+    for n in 0..=24u8 {
+        let asc: Vec<u8> = (0..n).collect();
+        let desc: Vec<u8> = (0..n).rev().collect();
+        let rot: Vec<u8> = (0..n).map(|i| (i + n / 2) % n.max(1)).collect();
+        let build_s = |order: &[u8], churn: bool| {
+            let mut s = S::with_hasher_in(Low2, CheckAlloc);
+            if churn {
+                // a removal history: extra elements that are removed again shift the later ones
+                for x in 100..100 + n {
+                    s.insert(x);
+                }
+            }
+            for &x in order {
+                s.insert(x);
+            }
+            if churn {
+                for x in 100..100 + n {
+                    s.remove(&x);
+                }
+            }
+            s
+        };
+        let build_m = |order: &[u8], churn: bool| {
+            let mut m = M::with_hasher_in(Low2, CheckAlloc);
+            if churn {
+                for x in 100..100 + n {
+                    m.insert(x, 0);
+                }
+            }
+            for &x in order {
+                m.insert(x, x.wrapping_mul(3));
+            }
+            if churn {
+                for x in 100..100 + n {
+                    m.remove(&x);
+                }
+            }
+            m
+        };
+        let sets = [build_s(&asc, false), build_s(&desc, false), build_s(&rot, false), build_s(&asc, true), build_s(&desc, true)];
+        let maps = [build_m(&asc, false), build_m(&desc, false), build_m(&rot, false), build_m(&asc, true), build_m(&desc, true)];
+        for i in 0..sets.len() {
+            for j in 0..sets.len() {
+                if sets[i] != sets[j] || !(sets[i] == sets[j]) {
+                    return Err(format!("HashSet == with a zero-sized hasher: two sets holding 0..{n} built with histories #{i} and #{j} (bucket counts {} / {}) compare unequal", sets[i].verif_dump().bucket_mask + 1, sets[j].verif_dump().bucket_mask + 1));
+                }
+                if maps[i] != maps[j] {
+                    return Err(format!("HashMap == with a zero-sized hasher: two maps holding 0..{n} built with histories #{i} and #{j} compare unequal"));
+                }
+                count += 2;
+            }
+            if n > 0 {
+                let mut other = sets[i].clone();
+                other.remove(&0);
+                other.insert(200);
+                if sets[i] == other || other == sets[i] {
+                    return Err(format!("HashSet == with a zero-sized hasher: sets of equal length that differ in one element compare equal (n = {n})"));
+                }
+                let mut om = maps[i].clone();
+                *om.get_mut(&0).unwrap() = 99;
+                if maps[i] == om || om == maps[i] {
+                    return Err(format!("HashMap == with a zero-sized hasher: maps that differ in one value compare equal (n = {n})"));
+                }
+                count += 2;
+            }
+        }
+    }
+    // 2. clone / clone_from between allocator instances with an identity
+    type IM = hashbrown::HashMap<u8, u8, Low2, IdAlloc>;
+    type IS = hashbrown::HashSet<u8, Low2, IdAlloc>;
+    let sizes = [0u8, 1, 3, 4, 7, 8, 14, 15, 28, 29];
+    for &ns in &sizes {
+        for &nt in &sizes {
+            for unallocated_target in [false, true] {
+                if unallocated_target && nt != 0 {
+                    continue;
+                }
+                OWNERS.with(|o| o.borrow_mut().clear());
+                OWNER_ERRS.with(|e| e.borrow_mut().clear());
+                {
+                    let mut src = IM::with_hasher_in(Low2, IdAlloc(1));
+                    for x in 0..ns {
+                        src.insert(x, x);
+                    }
+                    let mut tgt = if unallocated_target { IM::with_hasher_in(Low2, IdAlloc(2)) } else { IM::with_capacity_and_hasher_in(nt as usize, Low2, IdAlloc(2)) };
+                    for x in 50..50 + nt {
+                        tgt.insert(x, x);
+                    }
+                    tgt.clone_from(&src);
+                    if tgt != src || tgt.allocator().0 != 2 {
+                        return Err(format!("clone_from({ns} entries into a map of {nt}): result differs from the source or lost its own allocator"));
+                    }
+                    // the target's storage must live in the target's allocator: grow / shrink / drop it while the source is alive
+                    tgt.insert(250, 1);
+                    tgt.shrink_to_fit();
+                    drop(tgt);
+                    let c = src.clone();
+                    if c.allocator().0 != 1 {
+                        return Err("clone() does not carry the source's allocator".into());
+                    }
+                    drop(src);
+                    drop(c);
+                    let mut ssrc = IS::with_hasher_in(Low2, IdAlloc(3));
+                    for x in 0..ns {
+                        ssrc.insert(x);
+                    }
+                    let mut stgt = IS::with_capacity_and_hasher_in(nt as usize, Low2, IdAlloc(4));
+                    for x in 50..50 + nt {
+                        stgt.insert(x);
+                    }
+                    stgt.clone_from(&ssrc);
+                    if stgt != ssrc {
+                        return Err(format!("HashSet::clone_from({ns} elements into a set of {nt}): result differs from the source"));
+                    }
+                }
+                let errs = OWNER_ERRS.with(|e| std::mem::take(&mut *e.borrow_mut()));
+                if let Some(e) = errs.first() {
+                    return Err(format!("clone_from({ns} entries into a {} of {nt} entries) between two allocator instances: {e}", if unallocated_target { "never-allocated map" } else { "map" }));
+                }
+                let left = OWNERS.with(|o| o.borrow().len());
+                if left != 0 {
+                    return Err(format!("clone_from({ns} entries into a map of {nt}): {left} block(s) were never returned"));
+                }
+                count += 1;
+            }
+        }
+    }
+    let errs = env::take_errors();
+    if !errs.is_empty() {
+        return Err(errs.join("; "));
+    }
+    Ok(count)
+}
+
+impl Config for StatelessHasherAndAllocIdentity {
+    fn label(&self) -> String {
+        "stateless-hasher-eq-and-allocator-identity".into()
+    }
+    fn run(&self) -> ConfigReport {
+        crate::crumbs::set_config(&self.label());
+        let t0 = std::time::Instant::now();
+        env::reset();
+        let mut rep = ConfigReport { label: self.label(), mode: "enum".into(), exhaustive: true, ..Default::default() };
+        match env::catch(stateless_and_identity) {
+            Ok(Ok(n)) => {
+                rep.executions = n;
+                rep.states = 25;
+                rep.detail = json!({"eq": "sets / maps of 0..n (n <= 24) x 5 construction histories, all ordered pairs", "clone_from": "10 x 10 source / target sizes between distinct allocator instances", "checks": n, "distinct_nontrivial": n});
+            }
+            Ok(Err(m)) | Err(m) => rep.violations.push(Viol { config: self.label(), message: m, replay: json!({"stateless": true}) }),
+        }
+        rep.wall_s = t0.elapsed().as_secs_f64();
+        rep
+    }
+    fn replay(&self, _rp: &Value) -> Result<(), String> {
+        env::reset();
+        match env::catch(stateless_and_identity) {
             Ok(r) => r.map(|_| ()),
             Err(m) => Err(m),
         }
